@@ -498,11 +498,14 @@ pub fn gen_c06(out: &mut dyn Write, thorough: bool, seed: u64) {
         if r.chance(1, 8) && !m.tag_models.is_empty() {
             let mut mm = m.clone();
             let n_c = *r.pick(&[9usize, 15, 16, 17, 18, 23, 24, 25, 33]);
-            let k = (*r.pick(&[1usize, 7, 8, 9, 10, 15, 16, 17, 20])).min(n_c - 1);   // non-zero entries: the first k of the new classes
+            let k = (*r.pick(&[1usize, 2, 3, 7, 8, 9, 10, 15, 16, 17, 20])).min(n_c - 1);   // non-zero entries: the first k of the new classes
             {
                 let tm = &mut mm.tag_models[0];
                 tm.tags.push((0..n_c).map(|j| format!("S{j:02}")).collect());
-                tm.bias.extend((0..n_c).map(|j| (j % 5) as i32 - 2));
+                // every other time the bias ends in zeros too (L1-regularised training leaves rare classes without any weight): a bias
+                // vector longer than the fixed vector length whose entries from some position on are all zero
+                let zero_tail = r.chance(1, 2);
+                tm.bias.extend((0..n_c).map(|j| if zero_tail && j >= k { 0 } else { (j % 5) as i32 - 2 }));
                 let mut first = true;
                 for ws in tm.char_ngrams.iter_mut().map(|g| &mut g.weights).chain(tm.type_ngrams.iter_mut().map(|g| &mut g.weights)) {
                     for w in ws.iter_mut() {
